@@ -6,10 +6,11 @@ SPEC = {
                 "deadline": {"quick": 600, "thorough": 2700}}],
     "technique": "deviation-bounded exhaustive input enumeration on the real matchers under ASan+UBSan, independently built mirror as oracle",
     "rule": ("FUNCTIONAL: requests over 30 stacks = {EthernetII, EthernetII/Dot1Q, bare} x {IPv4: TCP, UDP+payload, ICMP echo, ICMP timestamp, "
-             "ICMP address-mask, DNS/UDP; IPv6: TCP, UDP+payload, ICMPv6 echo, DNS/UDP}; six field groups with boundary value sets: "
+             "ICMP address-mask, DNS/UDP; IPv6: TCP, UDP+payload, ICMPv6 echo, DNS/UDP}; seven field groups with boundary value sets: "
              "(source,destination) MAC pairs 6x9 incl. addresses one byte apart, broadcast, multicast; VLAN id x priority/CFI 16; "
              "(source,destination) IPv4 pairs 8x11 / IPv6 pairs 8x12 incl. one-byte neighbours, broadcast, multicast; all 25 pairs over "
-             "ports {0,1,53,0x100,0xffff} resp. id/sequence {0,1,0xff,0xff00,0xffff}; 5 DNS ids; 1-3 payload lengths. EVERY request that "
+             "ports {0,1,53,0x100,0xffff} resp. id/sequence {0,1,0xff,0xff00,0xffff}; 5 DNS ids; 1-3 payload lengths; 3 network header variants (IPv4: no options / stream-id = 24-byte header / NOOP + record-route = 32; "
+             "IPv6: none / destination-options 8 bytes / hop-by-hop 8 + destination-options 16; the mirror carries the same). EVERY request that "
              "deviates from the base request in <= 1 group (full sets), in 2 groups (quick: reduced sets of 6-12 values, thorough: full sets) "
              "and, thorough only, in 3 groups (reduced sets) is built with libtins and serialized (as send_recv does before matching). "
              "mirror(r) is built from the request DESCRIPTOR, field by field (addresses/ports swapped, reply type, same id/sequence/DNS id "
@@ -27,14 +28,22 @@ SPEC = {
              "extension headers, ARP/DHCP/DHCPv6/NA replies) truncated or zero-padded to that length, and that buffer with each byte in a "
              "16-byte (thorough: 24-byte) window after every layer start replaced by each of 35 boundary values (thorough: all 255)}; "
              "oracle: no ASan/UBSan report, no SIGSEGV/SIGBUS (caught per call), only libtins exceptions, allocation ledger unchanged. "
-             "evaluations = matcher calls judged; distinct_nontrivial = distinct (stack, perturbed matched field, original field value)."),
+             "CALL HISTORY: the first thing every job (process) does: the base request of every (stack, header variant) (90 probes; positive + 6 "
+             "values per matched byte, also on fields without an expectation) in ascending network-header-size order starting at a job-specific "
+             "probe, then in the opposite order, then the first probe again: every verdict must satisfy the oracle and the verdict vector of a "
+             "probe must be identical at every point of the process; in the functional part the mirror is re-evaluated after all other calls on "
+             "the same request object. "
+             "evaluations = matcher calls judged; distinct_nontrivial = distinct (stack, header variant, perturbed matched field, original field value)."),
     "claim": ("Inside the stated value sets the functional enumeration is complete for all requests within the deviation bound, and every "
               "single-byte departure from the mirror on a matched field is judged; the safety enumeration covers every class and every "
               "length 0..128 with contents that pass each matcher's guards up to the truncation point."),
     "note": ("Trusted: sanitizers (an out-of-bounds read that lands inside another live heap block is invisible to ASan), the harness' "
              "mirror builder (uses libtins setters + serialize, cross-checked against RFC offsets), libtins serialization of the request. "
-             "Bound: value sets above, <= 2 (quick) / 3 (thorough) deviating groups, buffers <= 128 bytes, one substituted byte."),
+             "Bound: value sets above, <= 2 (quick) / 3 (thorough) deviating groups, buffers <= 128 bytes, one substituted byte; call histories: "
+             "the orders described (hidden state that needs a longer or different history to show is not reached)."),
     "assumptions": ["a request is serialized (sent) before replies are matched against it",
+                    "a reply to a request with IPv4 options / IPv6 extension headers carries options / headers of the same total length",
+                    "the verdict is a function of (request, reply bytes) only: it may not depend on earlier calls in the process",
                     "matched fields are those named by the statement: link/network addresses, ports, ICMP reply type/id/sequence, DNS id, VLAN id",
                     "the reply source is not determined by the mirror relation when the request destination is broadcast/multicast",
                     "ICMP errors quoting the request verbatim are outside the property (neither required nor forbidden to match)",
